@@ -1047,6 +1047,30 @@ func genFunctionWrapper(n *node) func(*frame) reflect.Value {
 			return v
 		}
 
+		var recv reflect.Value
+		if rcvr != nil {
+			// The method receiver is evaluated with the method value, not when the
+			// function is called: the variable it is read from may change meanwhile.
+			src := rcvr(f)
+			sk, dk := src.Kind(), def.types[numRet].Kind()
+			for {
+				vs, ok := src.Interface().(valueInterface)
+				if !ok {
+					break
+				}
+				src = vs.value
+				sk = src.Kind()
+			}
+			switch {
+			case sk == reflect.Ptr && dk != reflect.Ptr:
+				recv = copyDeferArg(src.Elem())
+			case sk != reflect.Ptr && dk == reflect.Ptr:
+				recv = src.Addr()
+			default:
+				recv = copyDeferArg(src)
+			}
+		}
+
 		return reflect.MakeFunc(funcType, func(in []reflect.Value) []reflect.Value {
 			// Allocate and init local frame. All values to be settable and addressable.
 			fr := newFrame(f, len(def.types), f.runid())
@@ -1059,24 +1083,7 @@ func genFunctionWrapper(n *node) func(*frame) reflect.Value {
 				d = d[numRet:]
 			} else {
 				// Copy method receiver as first argument.
-				src, dest := rcvr(f), d[numRet]
-				sk, dk := src.Kind(), dest.Kind()
-				for {
-					vs, ok := src.Interface().(valueInterface)
-					if !ok {
-						break
-					}
-					src = vs.value
-					sk = src.Kind()
-				}
-				switch {
-				case sk == reflect.Ptr && dk != reflect.Ptr:
-					dest.Set(src.Elem())
-				case sk != reflect.Ptr && dk == reflect.Ptr:
-					dest.Set(src.Addr())
-				default:
-					dest.Set(src)
-				}
+				d[numRet].Set(recv)
 				d = d[numRet+1:]
 			}
 
